@@ -2550,8 +2550,16 @@ class DefaultExecutionContext(ExecutionContext):
                 index = 0
             assert compile_state._dict_parameters is not None
             keys = compile_state._dict_parameters.keys()
+            # a VALUES tuple after the first may leave a column of the first
+            # dictionary to its default: a SQL expression default has no
+            # parameter at all, a Python-side default that is invoked after
+            # this one has no value yet
             d.update(
-                (key, parameters["%s_m%d" % (key, index)]) for key in keys
+                (key, parameters[pkey])
+                for key, pkey in (
+                    (key, "%s_m%d" % (key, index)) for key in keys
+                )
+                if pkey in parameters
             )
             return d
         else:
